@@ -361,6 +361,12 @@ fn whole_node_loss_recovery(report: &Report, tier: Tier) -> Vec<Value> {
             }
         }
     }
+    // a node loses all its traffic around its OWN leader window (round-robin: window w is led by
+    // node w mod n): its block producer sits waiting for a ready parent that never arrives while the
+    // others skip the window and finalize past it
+    for w in tier.pick(vec![2u64], vec![1, 2, 3, 5]) {
+        jobs.push((4, ["", "own-window-1", "own-window-2", "own-window-3", "", "own-window-5"][w as usize], w * 1600 - 400, w * 1600 + 2400));
+    }
     let results: Vec<Value> = jobs
         .par_iter()
         .map(|(n, pattern, from, to)| {
@@ -387,6 +393,10 @@ fn whole_node_loss_recovery(report: &Report, tier: Tier) -> Vec<Value> {
                                         && match *pattern {
                                             "partition-2-vs-rest" => (a < 2) != (b < 2),
                                             "one-node-cut-off" => a == n - 1 || b == n - 1,
+                                            p if p.starts_with("own-window-") => {
+                                                let k = p["own-window-".len()..].parse::<usize>().unwrap() % n;
+                                                a == k || b == k
+                                            }
                                             _ => true,
                                         };
                                     if lost {
